@@ -87,7 +87,7 @@ PROFILES = {
     'C11': {
         'oracles': ['delete', 'views', 'raw'],
         'light': True,
-        'weights': dict(W, delete=6, repack=4, plant_duplicate=1.5),
+        'weights': dict(W, delete=6, repack=4, plant_duplicate=1.5, reinit_clear=0),
         'always': ('delete', 'repack'),
         'with_b': False,
         'big': 0.05,
@@ -99,7 +99,7 @@ PROFILES = {
     'C12': {'oracles': ['validate'], 'weights': W, 'with_b': True, 'big': 0.08, 'lowered': 0.3, 'nops': (3, 14)},
     'C13': {
         'oracles': ['monotone'],
-        'weights': {k: v for k, v in W.items() if k not in ('repack', 'repack_pack')},
+        'weights': {k: v for k, v in W.items() if k not in ('repack', 'repack_pack', 'reinit_clear')},
         'with_b': True,
         'big': 0.05,
         'lowered': 0.2,
@@ -120,7 +120,7 @@ PROFILES = {
     },
     'C16': {
         'oracles': ['views', 'counts', 'raw'],
-        'weights': dict(W, repack=0.5, repack_pack=0.3, reinit=0),
+        'weights': dict(W, repack=0.5, repack_pack=0.3, reinit=0, reinit_clear=0),
         'with_b': True,
         'same_hash_b': 0.8,
         'big': 0.0,
@@ -128,7 +128,7 @@ PROFILES = {
         'sql_knobs_only': True,
         'nops': (4, 14),
         'many_keys': True,
-        'mass': 0.01,
+        'mass': 0.04,
     },
     'C18': {'oracles': ['fds'], 'weights': W, 'with_b': True, 'big': 0.05, 'lowered': 0.2, 'nops': (3, 14), 'handles': (1, 2)},
 }
@@ -260,12 +260,9 @@ def execute(case, keep_root=False):  # pylint: disable=too-many-locals,too-many-
                 side = world.sides['c']
                 with SIM.quiet():
                     if 'views' in oracle.enabled:
-                        fresh = world.lib.Container(side.folder)
-                        try:
+                        with world.lib.Container(side.folder) as fresh:  # the context-manager form closes it
                             world.step_index = len(case['ops'])
                             check_views(world, side, fresh, oracle.rng, light=True)
-                        finally:
-                            fresh.close()
                     if 'raw' in oracle.enabled:
                         problems, _ = rawread.verify(side.folder, model=side.model)
                         if problems:
